@@ -152,8 +152,10 @@ closeLoop:
 
 func (s *atpServerSession) runATPReadLoop() {
 	// The message is generic, so we must find the type and decode the full message next.
-	var runtimeMessage DecodedRuntimeMessage
 	for {
+		// A fresh message for every iteration: the decoder leaves the fields that are absent from the input
+		// untouched, so a reused variable would hand a message without run ID the run ID of its predecessor.
+		var runtimeMessage DecodedRuntimeMessage
 		// First, decode the message
 		// Note: This blocks. To abort early, close stdin.
 		if err := s.cborStdin.Decode(&runtimeMessage); err != nil {
